@@ -14,6 +14,7 @@ from .logic import uncast, is_call
 from .r_a6 import strip_ptr
 from . import roles
 from .r_b1 import atomic_sites
+from .inline import resolve_sites
 
 BYTES = "bytes::Bytes"
 
@@ -42,101 +43,108 @@ def run(facts):
                        "end-of-allocation invariant of unshared Vec-backed handles")
     n = 0
     for b in facts.fn_bodies():
-        eb = ExprBuilder(b, facts, inline=True)
+        sites = resolve_sites(facts, b, lambda view, only: judge_extent_sites(facts, view, only), keep_names=("offset_from", "rebuild_vec"),
+                              is_entry=lambda fb: is_slot(facts, fb))
         cnt = {}
-        for bi, blk in enumerate(b.blocks):
-            if blk["cleanup"]:
-                continue
-            # control block construction
-            for si, s in enumerate(blk["stmts"]):
-                if s["k"] == "assign" and s["rv"]["k"] == "agg" and s["rv"].get("adt") == "bytes::Shared":
-                    n += 1
-                    f = {k: canon(eb.operand(v, (bi, si))) for k, v in zip(s["rv"]["fields"], s["rv"]["ops"])}
-                    key = "%s|Shared{cap}" % b.id
-                    buf, ln = is_extent_formula(f["cap"])
-                    okc = False
-                    how = ""
-                    if buf is not None and strip_ptr(f["buf"]) == buf:
-                        okc, how = True, "cap = (view - buf) + len for the stored buf"
-                    elif is_call(f["cap"], "capacity") and is_call(strip_ptr(f["buf"]), "as_mut_ptr") and strip_ptr(f["buf"])[2] == f["cap"][2]:
-                        okc, how = True, "(buf, cap) = (v.as_mut_ptr(), v.capacity()) of one Vec"
-                    if okc:
-                        res.ok(key, b.loc(bi, si), how, nontrivial=True)
-                    else:
-                        res.bad(key, b.loc(bi, si), "control block records cap = %s for buf = %s: not the allocation's size" % (fmt_expr(f["cap"])[:80], fmt_expr(f["buf"])[:60]))
-            t = blk["term"]
-            if t["k"] != "call":
-                continue
-            fn = callee(t)
-            if fn is None:
-                continue
-            p = (fn.get("res") or fn)["path"]
-            loc = (bi, len(blk["stmts"]))
-            if p.endswith("alloc::dealloc"):
+        for x in sites:
+            if x.get("counts", True):
                 n += 1
-                a = [canon(eb.operand(x, loc)) for x in t["args"]]
-                key = "%s|dealloc" % b.id
-                ptr = strip_ptr(a[0])
-                lay = a[1]
-                fsa = [x for x in walk(lay) if is_call(x, "from_size_align")]
-                probs = []
-                if len(fsa) != 1:
-                    probs.append("layout is not Layout::from_size_align(size, align)")
-                else:
-                    size, align = fsa[0][2]
-                    if canon(align) != ("const", 1):
-                        probs.append("alignment is %s, byte buffers are allocated with alignment 1" % fmt_expr(align))
-                    buf, ln = is_extent_formula(size)
-                    if buf is not None:
-                        if buf != ptr:
-                            probs.append("size is computed against %s but %s is freed" % (fmt_expr(buf)[:50], fmt_expr(ptr)[:50]))
-                    else:
-                        cb = cb_field(size, "cap")
-                        if cb is None or cb_field(ptr, "buf") != cb:
-                            probs.append("size %s is neither (view - buf) + len nor the control block's own cap for its own buf" % fmt_expr(size)[:80])
-                if probs:
-                    res.bad(key, b.loc(bi), "; ".join(probs))
-                else:
-                    res.ok(key, b.loc(bi), "dealloc(buf, Layout(size by formula, align 1))", nontrivial=True)
-            elif p == "alloc::vec::Vec::<T>::from_raw_parts":
-                n += 1
-                a = [canon(eb.operand(x, loc)) for x in t["args"]]
-                B, L, C = strip_ptr(a[0]), a[1], a[2]
-                k0 = "%s|from_raw_parts cap" % b.id
-                c = cnt.get(k0, 0)
-                cnt[k0] = c + 1
-                key = k0 + ("#%d" % c if c else "")
-                ok, how = False, ""
-                buf, ln = is_extent_formula(C)
-                if buf is not None and buf == B:
-                    ok, how = True, "capacity = (view - buf) + len for the same buf"
-                elif cb_field(C, "cap") is not None and cb_field(B, "buf") == cb_field(C, "cap"):
-                    ok, how = True, "(buf, cap) of one control block"
-                elif is_call(B, "sub") and isinstance(C, tuple) and C[0] == "bin" and C[1] == "Add" and B[2][1] in (C[2], C[3]) \
-                        and isinstance(uncast(L), tuple) and uncast(L)[0] == "bin" and uncast(L)[1] == "Add" and B[2][1] in (uncast(L)[2], uncast(L)[3]):
-                    ok, how = True, "ptr - off, len + off, cap + off with one off"
-                if ok:
-                    res.ok(key, b.loc(bi), how, nontrivial=True)
-                else:
-                    res.bad(key, b.loc(bi), "Vec rebuilt with capacity %s over %s: not the allocation's size (freeing it would use the wrong layout)" % (fmt_expr(C)[:80], fmt_expr(B)[:50]))
-                # the length of the rebuilt Vec: the handle's own bytes, counted from the start of the allocation
-                keyl = key.replace("from_raw_parts cap", "from_raw_parts len")
-                Lu = uncast(L)
-                okl, howl = False, ""
-                lbuf, lln = is_extent_formula(Lu)
-                if Lu[0] == "param":
-                    okl, howl = True, "length = the handle's len (bytes moved to the front first, A9)"
-                elif lbuf is not None and lbuf == B and uncast(lln)[0] == "param":
-                    okl, howl = True, "length = (view - buf) + len: up to the end of the handle's view"
-                elif is_call(B, "sub") and Lu[0] == "bin" and Lu[1] == "Add" and B[2][1] in (Lu[2], Lu[3]) and any(uncast(x)[0] == "param" for x in (Lu[2], Lu[3])):
-                    okl, howl = True, "length = len + off for buf = ptr - off"
-                if okl:
-                    res.ok(keyl, b.loc(bi), howl, nontrivial=True)
-                else:
-                    res.bad(keyl, b.loc(bi), "Vec rebuilt with length %s: not the end of the handle's view (bytes outside the view, possibly uninitialised, become contents)" % fmt_expr(Lu)[:80])
-    res.floor("extent_sites", n, 9)
+            k0 = "%s|%s" % (b.id, x["keytail"])
+            c = cnt.get(k0, 0)
+            cnt[k0] = c + 1
+            key = k0 + ("#%d" % c if c else "")
+            if x["ok"]:
+                res.ok(key, b.loc(x["bi"]), x["text"], nontrivial=True)
+            else:
+                res.bad(key, b.loc(x["bi"]), x["text"])
+    res.floor("extent_sites", n, 6)
     promotable_end(res, facts)
     return res
+
+
+def is_slot(facts, b):
+    for name, slots in roles.vtables(facts).items():
+        for s_ in slots.values():
+            if s_ and (s_.get("did") == b.did or (s_.get("res") or {}).get("did") == b.did):
+                return True
+    return False
+
+
+def judge_extent_sites(facts, b, only_blocks=None):
+    out = []
+    eb = ExprBuilder(b, facts, inline=True)
+    for bi, blk in enumerate(b.blocks):
+        if blk["cleanup"] or (only_blocks is not None and bi not in only_blocks):
+            continue
+
+        def emit(j, keytail, ok, text, counts=True):
+            out.append({"bi": bi, "j": j, "keytail": keytail, "ok": ok, "text": text, "nontrivial": True, "counts": counts})
+        # control block construction
+        for si, s in enumerate(blk["stmts"]):
+            if s["k"] == "assign" and s["rv"]["k"] == "agg" and s["rv"].get("adt") == "bytes::Shared":
+                f = {k: canon(eb.operand(v, (bi, si))) for k, v in zip(s["rv"]["fields"], s["rv"]["ops"])}
+                buf, ln = is_extent_formula(f["cap"])
+                okc = False
+                how = ""
+                if buf is not None and strip_ptr(f["buf"]) == buf:
+                    okc, how = True, "cap = (view - buf) + len for the stored buf"
+                elif is_call(f["cap"], "capacity") and is_call(strip_ptr(f["buf"]), "as_mut_ptr") and strip_ptr(f["buf"])[2] == f["cap"][2]:
+                    okc, how = True, "(buf, cap) = (v.as_mut_ptr(), v.capacity()) of one Vec"
+                emit(("s", si), "Shared{cap}", okc, how if okc else "control block records cap = %s for buf = %s: not the allocation's size" % (fmt_expr(f["cap"])[:80], fmt_expr(f["buf"])[:60]))
+        t = blk["term"]
+        if t["k"] != "call":
+            continue
+        fn = callee(t)
+        if fn is None:
+            continue
+        p = (fn.get("res") or fn)["path"]
+        loc = (bi, len(blk["stmts"]))
+        if p.endswith("alloc::dealloc"):
+            a = [canon(eb.operand(x, loc)) for x in t["args"]]
+            ptr = strip_ptr(a[0])
+            lay = a[1]
+            fsa = [x for x in walk(lay) if is_call(x, "from_size_align")]
+            probs = []
+            if len(fsa) != 1:
+                probs.append("layout is not Layout::from_size_align(size, align)")
+            else:
+                size, align = fsa[0][2]
+                if canon(align) != ("const", 1):
+                    probs.append("alignment is %s, byte buffers are allocated with alignment 1" % fmt_expr(align))
+                buf, ln = is_extent_formula(size)
+                if buf is not None:
+                    if buf != ptr:
+                        probs.append("size is computed against %s but %s is freed" % (fmt_expr(buf)[:50], fmt_expr(ptr)[:50]))
+                else:
+                    cb = cb_field(size, "cap")
+                    if cb is None or cb_field(ptr, "buf") != cb:
+                        probs.append("size %s is neither (view - buf) + len nor the control block's own cap for its own buf" % fmt_expr(size)[:80])
+            emit(0, "dealloc", not probs, "; ".join(probs) if probs else "dealloc(buf, Layout(size by formula, align 1))")
+        elif p == "alloc::vec::Vec::<T>::from_raw_parts":
+            a = [canon(eb.operand(x, loc)) for x in t["args"]]
+            B, L, C = strip_ptr(a[0]), a[1], a[2]
+            ok, how = False, ""
+            buf, ln = is_extent_formula(C)
+            if buf is not None and buf == B:
+                ok, how = True, "capacity = (view - buf) + len for the same buf"
+            elif cb_field(C, "cap") is not None and cb_field(B, "buf") == cb_field(C, "cap"):
+                ok, how = True, "(buf, cap) of one control block"
+            elif is_call(B, "sub") and isinstance(C, tuple) and C[0] == "bin" and C[1] == "Add" and B[2][1] in (C[2], C[3]) \
+                    and isinstance(uncast(L), tuple) and uncast(L)[0] == "bin" and uncast(L)[1] == "Add" and B[2][1] in (uncast(L)[2], uncast(L)[3]):
+                ok, how = True, "ptr - off, len + off, cap + off with one off"
+            emit(0, "from_raw_parts cap", ok, how if ok else "Vec rebuilt with capacity %s over %s: not the allocation's size (freeing it would use the wrong layout)" % (fmt_expr(C)[:80], fmt_expr(B)[:50]))
+            # the length of the rebuilt Vec: the handle's own bytes, counted from the start of the allocation
+            Lu = uncast(L)
+            okl, howl = False, ""
+            lbuf, lln = is_extent_formula(Lu)
+            if Lu[0] == "param" and b.blocks[bi].get("origin", b.did) == b.did:
+                okl, howl = True, "length = the handle's len (bytes moved to the front first, A9)"
+            elif lbuf is not None and lbuf == B and uncast(lln)[0] == "param":
+                okl, howl = True, "length = (view - buf) + len: up to the end of the handle's view"
+            elif is_call(B, "sub") and Lu[0] == "bin" and Lu[1] == "Add" and B[2][1] in (Lu[2], Lu[3]) and any(uncast(x)[0] == "param" for x in (Lu[2], Lu[3])):
+                okl, howl = True, "length = len + off for buf = ptr - off"
+            emit(1, "from_raw_parts len", okl, howl if okl else "Vec rebuilt with length %s: not the end of the handle's view (bytes outside the view, possibly uninitialised, become contents)" % fmt_expr(Lu)[:80], counts=False)
+    return out
 
 
 def promotable_end(res, facts):
